@@ -206,7 +206,7 @@ func (boundary) Describe() core.EngineInfo {
 		Real:       []string{"goatlang NewFunc adapters, call/callReady, mkFunc, newMethod, VM.Call/Func/Set/Get, constructors and accessors, slices.SortFunc native"},
 		Stubs:      []string{"host natives are the simulator's (they are the seam)", "SimDisk serves the script"},
 		Assumes:    []string{"an untyped constant passed to a native arrives as goatlang's untyped number: payload compared, type not", "scalars, nil and slices of scalars only", "natives that break their own declared result count are host bugs and are not injected"},
-		ProbesWant: []string{"form_1", "form_2", "form_3", "form_4", "form_5", "form_6", "ctx_stmt", "ctx_stmtret", "ctx_assign", "ctx_expr", "ctx_nested", "ctx_fnvar", "ctx_loop", "ctx_viafn", "ctx_method", "ctx_reenter", "ctx_recurse", "ctx_sort", "hostcall_swap", "hostcall_variadic", "round_2", "fault_propagated", "fault_handled", "hostcall_ok", "hostcall_too_many", "spread"},
+		ProbesWant: []string{"form_1", "form_2", "form_3", "form_4", "form_5", "form_6", "ctx_stmt", "ctx_stmtret", "ctx_assign", "ctx_expr", "ctx_nested", "ctx_fnvar", "ctx_loop", "ctx_viafn", "ctx_method", "ctx_reenter", "ctx_recurse", "ctx_sort", "hostcall_swap", "hostcall_variadic", "hostcall_reuse", "round_2", "fault_propagated", "fault_handled", "hostcall_ok", "hostcall_too_many", "spread"},
 	}
 }
 
@@ -367,6 +367,10 @@ func (e boundary) genPlan(r *core.PRNG) *BPlan {
 		if r.Chance(1, 6) {
 			a = 1 + r.Intn(6)
 			h = BHostCall{Fn: "variadic", A: a}
+		}
+		if r.Chance(1, 6) {
+			a = 1 + r.Intn(4)
+			h = BHostCall{Fn: "reuse", A: a}
 		}
 		for j := 0; j < h.A; j++ {
 			h.Params = append(h.Params, r.Intn(len(bPool)))
@@ -963,6 +967,42 @@ func (run *bRun) siteCtx(si int) string {
 func (run *bRun) hostCall(hc *BHostCall) {
 	if hc.Fn == "swap" {
 		run.hostSwap(hc)
+		return
+	}
+	if hc.Fn == "reuse" {
+		// the host keeps one parameter slice (with spare capacity, as append leaves it) and
+		// calls twice with it: both calls must see the parameters the host put there
+		name := fmt.Sprintf("main.id%d_%d", hc.A, hc.A)
+		ps := make([]goatlang.Value, 0, hc.A+3)
+		for _, pi := range hc.Params {
+			ps = append(ps, bPool[pi].value())
+		}
+		run.h.C.Inc("hostcall_reuse")
+		for round := 1; round <= 2; round++ {
+			rets, err := run.h.Call(name, hc.A, ps...)
+			if err != nil || len(rets) != hc.A {
+				run.fail("C19/count", "reuse-failed", "Call(%s) failed: %v", name, err)
+				return
+			}
+			got := append([]goatlang.Value{}, rets...)
+			for i := range got {
+				if !bPool[hc.Params[i]].matches(got[i]) {
+					run.fail("C19/roundtrip", "params-clobbered", "call %d of %s with the same parameter slice: parameter %d built as %s came back as %s (the first call left its results in the caller's slice)", round, name, i+1, bPool[hc.Params[i]], describe(got[i]))
+					return
+				}
+			}
+			// make the returned values differ from the parameters for the next round: call a function
+			// that returns something else through the same slice
+			if _, err := run.h.Call("main.getG", 1, ps[:0]...); err != nil {
+				return
+			}
+		}
+		for i := range ps {
+			if !bPool[hc.Params[i]].matches(ps[i]) {
+				run.fail("C19/roundtrip", "params-clobbered", "after Call(%s, params...) and Call(getG, params[:0]...) the host's parameter slice holds %s at index %d, the host put %s there", name, describe(ps[i]), i, bPool[hc.Params[i]])
+				return
+			}
+		}
 		return
 	}
 	if hc.Fn == "variadic" {
